@@ -3,7 +3,7 @@ package main
 // C05 / C17: temporary allocation (acc/pass/alloc.go) and the named register machine
 // (acc/eval/interp.go).
 //
-// c05 <ir> <in> <out> <prefix> <x> <impl named ir|err|panic> <impl temporaries> <interp distinct>
+// c05 <ir> <names before allocation|-> <in> <out> <prefix> <x> <impl named ir|err|panic> <impl temporaries> <interp distinct>
 //     <interp aliased> <input-written-distinct 0/1> <pointer-canonical 0/1>
 // c17 <ir> <impl number of temporaries|err>
 //
@@ -29,18 +29,19 @@ func init() {
 	props["C05"] = func(g *Gen) { genC05(g, c05Emit) }
 	props["C17"] = func(g *Gen) { genC05(g, c17Emit) }
 	replays["C05"] = func(g *Gen, f []string) {
-		if len(f) < 6 {
+		if len(f) < 7 {
 			return
 		}
 		p, ok := c05ParseIR(f[1])
 		if !ok {
 			return
 		}
-		x, _ := new(big.Int).SetString(f[5], 10)
+		c05WithNames(p, f[2])
+		x, _ := new(big.Int).SetString(f[6], 10)
 		if x == nil {
 			x = big.NewInt(1)
 		}
-		c05Case(g, p, c05Cfg{f[2], f[3], f[4]}, x)
+		c05Case(g, p, c05Cfg{f[3], f[4], f[5]}, x)
 	}
 	replays["C17"] = func(g *Gen, f []string) {
 		if len(f) < 2 {
@@ -210,8 +211,52 @@ func c05Interp(p *ir.Program, cfg c05Cfg, x *big.Int, aliased bool) (res string,
 	return out.String(), inputWritten
 }
 
+// c05PreNames dumps the identifiers the operands carry before allocation ("-" when none does).
+func c05PreNames(p *ir.Program) string {
+	for _, i := range p.Instructions {
+		for _, o := range i.Operands() {
+			if o.Identifier != "" {
+				return c05DumpNamed(p)
+			}
+		}
+	}
+	return "-"
+}
+
+// c05WithNames parses a pre-names dump onto a freshly parsed program (separate objects).
+func c05WithNames(p *ir.Program, names string) {
+	if names == "-" {
+		return
+	}
+	parts := strings.Split(names, ";")
+	if len(parts) != len(p.Instructions) {
+		return
+	}
+	nm := func(s string) string {
+		if s == "?" {
+			return ""
+		}
+		return s
+	}
+	for n, part := range parts {
+		eq := strings.Index(part, "=")
+		if eq < 0 || len(part) < eq+4 {
+			continue
+		}
+		inst := p.Instructions[n]
+		inst.Output.Identifier = nm(part[:eq])
+		args := strings.Split(part[eq+3:len(part)-1], ",")
+		for k, in := range inst.Op.Inputs() {
+			if k < len(args) {
+				in.Identifier = nm(args[k])
+			}
+		}
+	}
+}
+
 func c05Case(g *Gen, p *ir.Program, cfg c05Cfg, x *big.Int) {
 	dump := c05DumpIR(p)
+	pre := c05PreNames(p)
 	a := pass.Allocator{Input: cfg.in, Output: cfg.out, Format: cfg.prefix + "%d"}
 	var err error
 	named, temps, rd, ra, iw, pc := "err", "-", "-", "-", false, false
@@ -224,11 +269,18 @@ func c05Case(g *Gen, p *ir.Program, cfg c05Cfg, x *big.Int) {
 		rd, iw = c05Interp(p, cfg, x, false)
 		ra, _ = c05Interp(p, cfg, x, true)
 	}
-	g.Line("c05", dump, cfg.in, cfg.out, cfg.prefix, x.String(), named, temps, rd, ra, b01(iw), b01(pc))
+	g.Line("c05", dump, pre, cfg.in, cfg.out, cfg.prefix, x.String(), named, temps, rd, ra, b01(iw), b01(pc))
 }
 
 func c17Case(g *Gen, p *ir.Program) {
 	dump := c05DumpIR(p)
+	// identifiers the operands carry beforehand play no role here (and conflicting ones would be
+	// refused by CanonicalizeOperands): drop them
+	for _, i := range p.Instructions {
+		for _, o := range i.Operands() {
+			o.Identifier = ""
+		}
+	}
 	a := pass.Allocator{Input: "x", Output: "z", Format: "t%d"}
 	var err error
 	n := "err"
